@@ -1,6 +1,6 @@
 """C17 configuration for ./check."""
 CFG = {
-    "modules": ["VaxisModel.Props.C17", "VaxisModel.Props.C17Ext", "VaxisModel.Witness.F517"],
+    "modules": ["VaxisModel.Props.C17", "VaxisModel.Props.C17Ext", "VaxisModel.Props.C17Body", "VaxisModel.Witness.F517"],
     "extractors": ["C17"],
     "drivers": ["C17"],
     "stateful": True,
